@@ -58,3 +58,20 @@ Lemma rejection_examples :
   build gen_tabs (CList []) = Err SchemaError /\
   valid gen_tabs KPair (CList [CInt 3; CInt 0]) = false /\ valid gen_tabs KPair (CList [CInt 3]) = false /\ valid gen_tabs KPair (CList [CBool true; CInt 2]) = false.
 Proof. repeat split; vm_compute; reflexivity. Qed.
+
+(* the descriptors the HARNESS reads out of the shipped files (what it assembles "by hand" for the three-way trajectory comparison) are the
+   descriptors the model's construction of the same trees yields: types, colours, actions, the five components and the members of the
+   transition chain and of the reward sum, in order *)
+Definition zlist_eqb (a b : list Z) : bool := (length a =? length b)%nat && forallb (fun p => fst p =? snd p) (combine a b).
+Definition comp_index (c : comp) : Z := match c with Comp _ i _ _ => Z.of_nat i end.
+Definition comp_children (c : comp) : list Z := match c with Comp _ _ _ ch => map comp_index ch end.
+Definition described_ok (e : cfg * (list Z * list Z * list Z * list Z * list Z * list Z * list Z * list Z)) : bool :=
+  let '(c, (st, sc, acts, ot, oc, comps, tkids, rkids)) := e in
+  match build gen_tabs c with
+  | Ok d => zlist_eqb (d_state_types d) st && zlist_eqb (d_state_colors d) sc && zlist_eqb (d_actions d) acts &&
+            zlist_eqb (d_obs_types d) ot && zlist_eqb (d_obs_colors d) oc &&
+            zlist_eqb (map comp_index [d_reset d; d_transition d; d_reward d; d_observation d; d_terminating d]) comps &&
+            zlist_eqb (comp_children (d_transition d)) tkids && zlist_eqb (comp_children (d_reward d)) rkids
+  | Err _ => false end.
+Lemma shipped_described_ok : (20 <= length shipped_described)%nat /\ forallb described_ok shipped_described = true.
+Proof. split; [vm_compute; repeat constructor | vm_compute; reflexivity]. Qed.
